@@ -6,6 +6,7 @@ Monitors: PrecomputedIO.write_chunk / read_chunk results against a dictionary mo
 store_chunk) and a digest of the directory tree; reads through the writing handle and
 through a freshly opened handle.
 """
+import json
 import os
 import random
 import shutil
@@ -245,7 +246,33 @@ def run_case(case):
                 todo += [(sc, c) for c in picks if rnd.random() < 0.2]   # rewrites
         rnd.shuffle(todo)
         todo = todo[:60]
+        # Sometimes the dataset description is revised half-way (documented way: store the
+        # new info with get_IO_for_new_dataset on the SAME accessor and use the new
+        # PrecomputedIO): a scale is appended and written to afterwards.
+        revise_at = None
+        if rnd.random() < 0.35 and len(todo) >= 2:
+            revise_at = rnd.randint(1, len(todo) - 1)
+            extra = json.loads(json.dumps(info["scales"][-1]))
+            extra["key"] = "added"
+            extra["size"] = [rnd.randint(1, 9) for _ in range(3)]
+            extra["resolution"] = [64, 64, 64]
+            new_grid = _grid(extra)
+            late = [(extra, c) for c in rnd.sample(new_grid, min(len(new_grid), 6))]
+            todo = todo[:revise_at] + [("REVISE", extra)] + \
+                sorted(todo[revise_at:] + late, key=lambda _x: rnd.random())
+            obs["info_revisions"] = 1
         for sc, coords in todo:
+            if sc == "REVISE":
+                info = json.loads(json.dumps(info))
+                info["scales"].append(coords)
+                try:
+                    pio = precomputed_io.get_IO_for_new_dataset(
+                        info, acc, overwrite_info=True, encoder_options=h["enc_opts"])
+                except Exception as exc:  # noqa: BLE001
+                    v.append({"kind": "info-revision-raised",
+                              "detail": f"{ctx}: {type(exc).__name__}: {str(exc)[:160]}"})
+                    break
+                continue
             layout = rnd.choice(["C", "C", "F", "T", "slice"]) if enc != "jpeg" else \
                 rnd.choice(["C", "C", "F"])
             arr = _array(np, rnd, info, coords, enc, layout)
@@ -374,4 +401,5 @@ def gates(obs, tier):
         "rewrites_seen": obs.get("rewrites", 0) > 20,
         "noncontiguous_inputs": obs.get("noncontiguous_arrays", 0) > 100,
         "numpy_int_coords": obs.get("numpy_int_coords", 0) > 20,
+        "info_revised_mid_history": obs.get("info_revisions", 0) > 20,
     }
